@@ -59,6 +59,8 @@ func main() {
 		c17.RunConc(os.Args[3], os.Args[2])
 	case "c14":
 		c14.Run(os.Args[2], os.Args[3])
+	case "c14excl":
+		c14.RunExcl(os.Args[2])
 	case "c14stress":
 		c14.Stress(os.Args[2], atoi(os.Args[3]))
 	case "c16":
